@@ -85,6 +85,10 @@ type scenario struct {
 	prsSpec  Tok
 	data     []byte
 	ops      []int
+	// bufSize: size of the bufio.Reader of kind 2 (0 = default 4096). Not part of the model: for every size that can
+	// hold what the Demuxer peeks (193 bytes with auto-detection, nothing with an explicit packet size) the bytes
+	// delivered are the same.
+	bufSize int
 }
 
 func (s scenario) tok() Tok {
@@ -103,6 +107,9 @@ func (s scenario) tok() Tok {
 	if pr.Kind == 0 {
 		pr = L(I(0))
 	}
+	if s.bufSize > 0 {
+		return L(I(int64(s.kind)), I(int64(s.optSize)), I(int64(s.fault)), L(ch...), sk, pr, B(s.data), L(ops...), I(int64(s.bufSize)))
+	}
 	return L(I(int64(s.kind)), I(int64(s.optSize)), I(int64(s.fault)), L(ch...), sk, pr, B(s.data), L(ops...))
 }
 
@@ -114,6 +121,9 @@ func scenarioOf(c Tok) scenario {
 	}
 	for _, t := range c.At(7).L {
 		s.ops = append(s.ops, int(t.Int()))
+	}
+	if len(c.L) > 8 {
+		s.bufSize = int(c.At(8).Int())
 	}
 	return s
 }
@@ -160,7 +170,11 @@ func runScenario(s scenario) *demuxRun {
 	case 1:
 		rd = seekReader{cr}
 	case 2:
-		br = bufio.NewReader(cr)
+		if s.bufSize > 0 {
+			br = bufio.NewReaderSize(cr, s.bufSize)
+		} else {
+			br = bufio.NewReader(cr)
+		}
 		rd = br
 	default:
 		rd = struct{ io.Reader }{cr}
